@@ -42,6 +42,28 @@ class FileCache:
         """
         return contents, len(contents)
 
+    def _run_task(self, task, file_name, *args):
+        """
+        Runs a load or write task in a worker. When the task fails its entry is forgotten: the entry's size
+        was never added to current_memory_usage (that happens at the end of the task), so nothing is
+        subtracted, and a later call loads or writes the file afresh instead of finding the failed future.
+
+        Args:
+        - task (callable): self._load_file or self._write_file
+        - file_name (str): the name of the file the task works on
+
+        Returns:
+        - object: what the task returns
+        """
+        try:
+            return task(file_name, *args)
+        except BaseException:
+            with self.file_futures_lock:
+                self.file_futures.pop(file_name, None)
+                self.file_access_times = [(t, fn) for t, fn in self.file_access_times if fn != file_name]
+                heapq.heapify(self.file_access_times)
+            raise
+
     def _load_file(self, file_name):
         """
         Loads the specified file into memory and updates the memory usage and file future.
@@ -180,7 +202,7 @@ class FileCache:
                 write_applied = None
             elif info is None or not info[0]:
                 self._unload_file(file_name)
-                future = self.executor.submit(self._write_file, file_name, new_file_contents, use_fsync)
+                future = self.executor.submit(self._run_task, self._write_file, file_name, new_file_contents, use_fsync)
                 self.file_futures[file_name] = (True, claim, future)
                 write_applied = True
             else:
@@ -280,7 +302,7 @@ class FileCache:
             info = self.file_futures.get(file_name)
             if info is None:
                 tinfo(f"get_file: {file_name}")
-                future = self.executor.submit(self._load_file, file_name)
+                future = self.executor.submit(self._run_task, self._load_file, file_name)
                 self.file_futures[file_name] = (False, claim, future)
             else:
                 tinfo(f"get_file [cached]: {file_name}")
